@@ -30,44 +30,37 @@ def event_class(dom, e):
     return "/".join(parts)
 
 
-def validate(chk, dom, spec, trace_path, tag=None, timeout=1500, xmx="6g", max_rejections=8,
-             class_fn=None, env=None, cfg=None):
-    """Validate an ndjson trace against a trace spec. Rejected segments are reported as violations
-    (or known findings) and removed so the rest of the trace is still checked.
-    Returns (events_validated, segments_validated, tlc_states)."""
-    events = vlib.read_ndjson(trace_path)
-    total_events = len(events)
-    segs = split_segments(events)
+def _validate_group(dom, spec, segs, path, tag, timeout, xmx, max_rejections, class_fn, env, cfg):
+    """Validate one group of segments in its own TLC process. Returns dict(states, nev, nseg, violations[])."""
     states = 0
     rejections = 0
-    cur_path = trace_path
+    viol = []
+    cur_path = path
+    vlib.write_ndjson(cur_path, [x for s in segs for x in s])
     while True:
         e = {"TRACE": cur_path}
         if env:
             e.update(env)
-        res = vlib.tlc(spec, cfg=cfg, workers=1, deque=True, env=e, timeout=timeout, xmx=xmx,
-                       tag=(tag or dom) + "_trace_%d" % os.getpid())
+        res = vlib.tlc(spec, cfg=cfg, workers=1, deque=True, env=e, timeout=timeout, xmx=xmx, tag=tag)
         states += res.distinct
         if res.ok:
             break
+        flat = [x for s in segs for x in s]
         if res.invariant_violated:
-            # an invariant of the spec failed in a state reached by the implementation trace
             idx = max(res.depth - 1, 0)
-            flat = [x for s in segs for x in s]
             ev = flat[min(idx, len(flat) - 1)] if flat else {}
             cls = (class_fn or event_class)(dom, ev) + "/invariant:" + res.invariant_violated
-            chk.violation(cls, cur_path, dict(leg="T", invariant=res.invariant_violated, index=idx, event=ev))
+            viol.append((cls, cur_path, dict(leg="T", invariant=res.invariant_violated, index=idx, event=_short(ev))))
             bad = idx
         elif res.rejected and res.matched is not None:
-            flat = [x for s in segs for x in s]
             bad = res.matched  # 0-based index of the first unmatched event
             ev = flat[bad] if bad < len(flat) else {}
+            prev = flat[bad - 1] if 0 < bad <= len(flat) else {}
             cls = (class_fn or event_class)(dom, ev)
-            chk.violation(cls, cur_path, dict(leg="T", index=bad, event=_short(ev), spec=spec))
+            viol.append((cls, cur_path, dict(leg="T", index=bad, event=_short(ev), previous_event=_short(prev, 600), spec=spec)))
         else:
             raise ToolError("TLC failed on trace %s:\n%s" % (cur_path, vlib.tlc_fail_text(res)))
         rejections += 1
-        # drop the segment containing `bad`
         pos = 0
         keep = []
         for s in segs:
@@ -77,10 +70,52 @@ def validate(chk, dom, spec, trace_path, tag=None, timeout=1500, xmx="6g", max_r
         segs = keep
         if rejections >= max_rejections or not segs:
             break
-        cur_path = trace_path + ".rest%d" % rejections
+        cur_path = path + ".rest%d" % rejections
         vlib.write_ndjson(cur_path, [x for s in segs for x in s])
-    nseg = len(segs)
-    nev = sum(len(s) for s in segs)
+    return dict(states=states, nev=sum(len(s) for s in segs), nseg=len(segs), violations=viol)
+
+
+def validate(chk, dom, spec, trace_path, tag=None, timeout=1500, xmx="4g", max_rejections=8,
+             class_fn=None, env=None, cfg=None, parallel=1):
+    """Validate an ndjson trace against a trace spec. Rejected segments are reported as violations
+    (or known findings) and removed so the rest of the trace is still checked. With parallel > 1 the
+    segments are distributed over several TLC processes (segments are independent by construction).
+    Returns (events_validated, segments_validated, tlc_states)."""
+    from concurrent.futures import ThreadPoolExecutor
+    events = vlib.read_ndjson(trace_path)
+    total_events = len(events)
+    segs = split_segments(events)
+    n = max(1, min(parallel, len(segs)))
+    # contiguous groups of roughly equal event count
+    groups = [[] for _ in range(n)]
+    target = total_events / float(n)
+    gi, acc = 0, 0
+    for s in segs:
+        if acc >= target * (gi + 1) and gi < n - 1:
+            gi += 1
+        groups[gi].append(s)
+        acc += len(s)
+    groups = [g for g in groups if g]
+    base = (tag or dom) + "_trace_%d" % os.getpid()
+
+    def work(k):
+        return _validate_group(dom, spec, groups[k], trace_path + ".g%d" % k, "%s_g%d" % (base, k), timeout, xmx,
+                               max_rejections, class_fn, env, cfg)
+    if len(groups) == 1:
+        results = [work(0)]
+    else:
+        with ThreadPoolExecutor(max_workers=len(groups)) as ex:
+            results = list(ex.map(work, range(len(groups))))
+    states = nev = nseg = 0
+    for k, r in enumerate(results):
+        states += r["states"]
+        nev += r["nev"]
+        nseg += r["nseg"]
+        for cls, path, detail in r["violations"]:
+            chk.violation(cls, path, detail)
+        for f in [trace_path + ".g%d" % k] + [trace_path + ".g%d.rest%d" % (k, i) for i in range(1, max_rejections + 1)]:
+            if os.path.exists(f) and not r["violations"]:
+                os.remove(f)
     chk.add("trace_events_validated", nev)
     chk.add("trace_events_recorded", total_events)
     chk.add("traces_validated_against_impl", nseg)
